@@ -272,6 +272,66 @@ def dipyramid (n : Nat) : Except String (List (V3 α)) :=
   | .ok base => .ok (base ++ [⟨lit 0, lit 0, h⟩, ⟨lit 0, lit 0, -h⟩])
   | .error e => .error e
 
+/-! ### argument handling of `get_shape` (Python ints / bools / numpy integers, floats / numpy
+     floating scalars, anything else) -/
+
+/-- a Python argument as the families see it: `int` (also `bool`, numpy integers), `real` (`float`,
+    numpy floating scalars), `other` (str, None, list, complex …: comparison with an int raises
+    TypeError) -/
+inductive Arg (α : Type) where
+  | int (i : Int)
+  | real (x : α)
+  | other
+deriving Inhabited
+
+def Arg.val? : Arg α → Option α
+  | .int i => some (ofInt i)
+  | .real x => some x
+  | .other => none
+
+/-- `Family323Plus/423/523.get_shape(a, c)` on arbitrary arguments: `not lo <= a <= hi` is evaluated
+    first (TypeError for a non-number, ValueError outside), then the same for `c` -/
+def Table.getShapeArg (T : Table) (a c : Arg α) : Except String (List (V3 α)) :=
+  match a.val? with
+  | none => .error "TypeError"
+  | some av =>
+    if outside (T.aLo.toScalar T.den) (T.aHi.toScalar T.den) av then .error "ValueError"
+    else match c.val? with
+      | none => .error "TypeError"
+      | some cv =>
+        if outside (T.cLo.toScalar T.den) (T.cHi.toScalar T.den) cv then .error "ValueError"
+        else .ok (makeVertices T.planesS T.types av (T.b.toScalar T.den) cv)
+
+/-- `TruncatedTetrahedronFamily.get_shape(truncation)` on an arbitrary argument -/
+def TTTable.getShapeArg (M : TTTable) (T : Table) (t : Arg α) : Except String (List (V3 α)) :=
+  match t.val? with
+  | none => .error "TypeError"
+  | some tv => M.getShape T tv
+
+/-- the `n` of the uniform families (`kind` 0 = n-gon, 1 prism, 2 antiprism, 3 pyramid, 4 dipyramid):
+    the heights of the polyhedral families divide by `n` first (ZeroDivisionError for 0 / 0.0),
+    `_make_ngon` raises ValueError for `n < 3`, and `np.linspace(num=n)` raises TypeError for a float -/
+def uniformArg (kind : Nat) (n : Arg α) : Except String Nat :=
+  match n with
+  | .other => .error "TypeError"
+  | .int i =>
+    if kind ≠ 0 ∧ i = 0 then .error "ZeroDivisionError"
+    else if i < 3 then .error "ValueError" else .ok i.toNat
+  | .real x =>
+    if kind ≠ 0 ∧ Scalar.eqb x (lit 0) = true then .error "ZeroDivisionError"
+    else if x < lit 3 then .error "ValueError" else .error "TypeError"
+
+/-- `make_vertices(n)` of the five families by `kind` -/
+def uniformVertices (kind n : Nat) : Except String (List (V3 α)) :=
+  if kind = 0 then regularNGon n else if kind = 1 then prism n
+  else if kind = 2 then antiprism n else if kind = 3 then pyramid n else dipyramid n
+
+/-- `Family.get_shape(n)` up to the call of ConvexPolygon / ConvexPolyhedron -/
+def uniformGetShape (kind : Nat) (n : Arg α) : Except String (List (V3 α)) :=
+  match uniformArg kind n with
+  | .error e => .error e
+  | .ok m => uniformVertices kind m
+
 /-! ### `_doi_shape_collection_factory` / `_KeyedDefaultDict.__missing__` -/
 
 def lookup (k : String) : List (String × List String) → Option (List String)
